@@ -74,6 +74,10 @@ fn token() -> impl Strategy<Value = String> {
     ]
 }
 
+pub fn token_soup_strategy() -> impl Strategy<Value = String> {
+    token_soup()
+}
+
 fn token_soup() -> impl Strategy<Value = String> {
     (prop::collection::vec((token(), prop::sample::select(vec![" ", ", ", ",", "\n", ""])), 1..10)).prop_map(|v| {
         let mut s = String::new();
